@@ -687,6 +687,40 @@ def install_exclusions(root, sources, load_from):
     Configuration.load(Path(load_from))
 
 
+def gen_exclusion_change(rnd, tree, patterns, sources):
+    """a history step (round 7): the exclusion list CHANGES between two scans of one tree - lines added (aimed at files that
+    contributed to the first scan; any of the six classes, any source) and / or removed -> {"patterns", "sources"}"""
+    pats = list(patterns)
+    src = {k: list(v) for k, v in sources.items()}
+    mode = rnd.choice(["add", "add", "add", "remove", "both"])
+    if mode in ("remove", "both") and pats:
+        p = rnd.choice(pats)
+        pats.remove(p)
+        for k in ("option", "config", "gitignore"):
+            if p in src[k]:
+                src[k].remove(p)
+                break
+    if mode in ("add", "both") or not patterns:
+        before = set(spec_selected(tree, pats))
+        new = []
+        for _ in range(5):
+            new = [p for p in gen_patterns(rnd, tree) if p not in pats][:2]
+            if new and set(spec_selected(tree, pats + new)) != before:
+                break
+        for p in new:
+            pats.append(p)
+            src[rnd.choice(["option", "config", "gitignore"])].append(p)
+    return {"patterns": pats, "sources": src}
+
+
+def reinstall_exclusions(root, sources, load_from):
+    """replace the exclusion configuration of a root (files of the earlier one removed first)"""
+    for n in HARNESS_FILES:
+        if os.path.lexists(os.path.join(root, n)):
+            os.remove(os.path.join(root, n))
+    install_exclusions(root, sources, load_from)
+
+
 def reset_configuration():
     from codelimit.common.Configuration import Configuration
     Configuration.exclude = []
